@@ -507,11 +507,18 @@ pub fn drive(universe_file: &str, vectors: &str, out: &str) {
     let yaml_rule = serde_json::to_string(&rule_json).unwrap(); // JSON is YAML
     let mut gdocs = vec![];
     global_docs(u, &v["rule"], &mut gdocs);
+    if v["shadow"] == true {
+      // global utilities with the ids of the local ones and a different body (a kind): the local ones shadow them
+      let kind = u["kinds"].as_array().and_then(|k| k.first()).map(|k| k["name"].clone()).unwrap_or(json!("identifier"));
+      for k in utils_json.keys() {
+        gdocs.push(json!({"id": k, "language": u["lang"], "rule": {"kind": kind}}));
+      }
+    }
     let src = tree["src"].as_str().unwrap();
     let g = l.ast_grep(src);
     let p = proj::project(&g.root(), true);
     let nodes = all_nodes(&g);
-    let mut rec = json!({"id": format!("r{i}"), "u": ui, "t": ti, "lang": u["lang"], "rule": v["rule"], "utils": v["utils"],
+    let mut rec = json!({"id": format!("r{i}"), "u": ui, "t": ti, "lang": u["lang"], "rule": v["rule"], "utils": v["utils"], "shadow": v["shadow"] == true,
       "yaml": rule_json, "src": src, "load": "", "error": "", "hits": [], "envs": [], "panic": false,
       "pk": {"any": true, "set": []}, "cfg": {"ok": false}});
     // (1) the bare Rule through DeserializeEnv (no potential-kinds requirement)
